@@ -88,10 +88,12 @@ def cases(draw):
         "pre": pre,
         # zip store may be given a path without the .zip suffix (save appends it)
         "suffix_given": draw(st.booleans()) if store == "zip" else True,
+        # base name of the target; dotted names matter for the zip store: "run.v2" -> "run.v2.zip", never "run.zip"
+        "name": draw(st.sampled_from(["t", "t", "run.v2", "scan_0.5mrad", "a.b.c"])) if store == "zip" else "t",
         # "cycle": fault site k uses exception kind EXCS[(k + off) % 4] and timing WHENS[((k + off) // 4) % 3],
         # so every case exercises every exception kind and both timings across its sites
         "when": draw(st.sampled_from(["cycle", "cycle", "before", "after"])),
-        "exc": draw(st.sampled_from(["cycle", "cycle", "cycle", "OSError", "RuntimeError", "Injected", "KeyboardInterrupt"])),
+        "exc": draw(st.sampled_from(["cycle", "cycle", "cycle", "cycle"] + EXCS)),
         "off": draw(st.integers(0, 11)),
         "natural": natural,
         "compression": draw(st.sampled_from([None, 0, 4])),
@@ -136,20 +138,32 @@ def _make_exc(name):
         return OSError(errno.ENOSPC, "vq: injected ENOSPC")
     if name == "RuntimeError":
         return RuntimeError("vq: injected")
+    if name == "SystemExit":
+        return SystemExit(3)  # e.g. a SIGTERM handler calling sys.exit() during a long save
+    if name == "MemoryError":
+        return MemoryError("vq: injected")
+    if name == "GeneratorExit":
+        return GeneratorExit()
+    if name == "CustomBase":
+        return CustomBase("vq: injected")
     if name == "KeyboardInterrupt":
         return KeyboardInterrupt("vq: injected")  # "fails part-way for any reason": Ctrl-C during a long save
     return Injected("vq: injected")
 
 
-EXCS = ["OSError", "KeyboardInterrupt", "RuntimeError", "Injected"]
+EXCS = ["OSError", "KeyboardInterrupt", "RuntimeError", "Injected", "SystemExit", "MemoryError", "GeneratorExit", "CustomBase"]
+
+
+class CustomBase(BaseException):
+    """a BaseException that is neither Exception nor KeyboardInterrupt (cf. asyncio.CancelledError)"""
 WHENS = ["before", "after", "before"]
 
 
 def _exc_when(case, k):
     off = case.get("off", 0)
     kk = (k or 0) + off
-    exc = case["exc"] if case["exc"] != "cycle" else EXCS[kk % 4]
-    when = case["when"] if case["when"] != "cycle" else WHENS[(kk // 4) % 3]
+    exc = case["exc"] if case["exc"] != "cycle" else EXCS[kk % len(EXCS)]
+    when = case["when"] if case["when"] != "cycle" else WHENS[(kk // len(EXCS)) % 3]
     return exc, when
 
 
@@ -233,8 +247,9 @@ class Scenario:
         self.old = gg.build(case["old"])
         self.template = ctx.fresh_dir()
         store = case["store"]
-        self.given = "t" if (store == "dir" or not case["suffix_given"]) else "t.zip"
-        self.target = "t.zip" if store == "zip" else "t"
+        base = case.get("name", "t")
+        self.given = base if (store == "dir" or not case["suffix_given"]) else base + ".zip"
+        self.target = base + ".zip" if store == "zip" else base
         tp = os.path.join(self.template, self.target)
         pre = case["pre"]
         self.old_loadable = False
@@ -259,16 +274,23 @@ class Scenario:
                 with open(os.path.join(tp, "sub", "keep.txt"), "w") as f:
                     f.write("user data")
             # siblings, including names a sloppy implementation might use or confuse with the target
-            for name in ("sib.txt", "t.tmp", "t.zip.tmp", "t.zip.bak", ".t.zip", "t_old.zip"):
+            confusable = ["sib.txt", "t.tmp", "t.zip.tmp", "t.zip.bak", ".t.zip", "t_old.zip"]
+            if base != "t":
+                # what a suffix-REPLACING normalisation would hit: run.v2 -> run.zip, scan_0.5mrad -> scan_0.zip, a.b.c -> a.b.zip
+                stem = base.rsplit(".", 1)[0]
+                confusable += [stem + ".zip", stem, base + ".tmp", base + ".zip.tmp"]
+            for name in confusable:
+                if name in (self.target, self.given):
+                    continue
                 with open(os.path.join(self.template, name), "w") as f:
                     f.write("sibling " + name)
             os.makedirs(os.path.join(self.template, "sibdir", "deep"))
             with open(os.path.join(self.template, "sibdir", "deep", "f.bin"), "wb") as f:
                 f.write(bytes(range(50)))
-            if self.given != self.target:
+            if self.given != self.target and not os.path.lexists(os.path.join(self.template, self.given)):
                 # the un-suffixed name is a different path than the real target
-                os.makedirs(os.path.join(self.template, "t"))
-                self.old.save(os.path.join(self.template, "t", "store"), mode="w", store="dir")
+                os.makedirs(os.path.join(self.template, self.given))
+                self.old.save(os.path.join(self.template, self.given, "store"), mode="w", store="dir")
             elif store == "dir":
                 self.old.save(os.path.join(self.template, "t.zip"), mode="w", store="zip")
         self.pre_exists = os.path.lexists(tp)
